@@ -41,3 +41,57 @@ def fuzz(seed, functions, q=0.15, pause=0.0002):
         yield stats
     finally:
         threading.settrace(old)
+
+
+# ---------------------------------------------------------------- delay injection at call sites
+def call_sites(roots, names, with_callee=False):
+    """(function name, bytecode offset right after a call) for the functions `names` nested in the code objects `roots`:
+    the places where a thread has just looked at - or changed - something another thread may touch"""
+    import dis
+    out = []
+
+    def walk(code):
+        if code.co_name in names:
+            ins = list(dis.get_instructions(code))
+            for i, x in enumerate(ins[:-1]):
+                if x.opname.startswith('CALL'):
+                    # the attribute that was called, if the call is of the form obj.attr(...) without arguments that are calls themselves
+                    callee = next((y.argval for y in reversed(ins[max(0, i - 6):i]) if y.opname in ('LOAD_ATTR', 'LOAD_METHOD')), None)
+                    out.append((code.co_name, ins[i + 1].offset) if not with_callee else (code.co_name, ins[i + 1].offset, callee))
+        for c in code.co_consts:
+            if hasattr(c, 'co_code'):
+                walk(c)
+    for r in roots:
+        walk(r)
+    return sorted(set(out))
+
+
+@contextlib.contextmanager
+def delay_sites(sites, delay):
+    """every time a thread started inside the block reaches one of `sites` it sleeps `delay` seconds. A window between two calls that should
+    have been one critical section (or one atomic test) is held open every time it is passed - unlike random preemption, which has to hit
+    the one iteration that matters."""
+    want = {}
+    for site in sites:
+        want.setdefault(site[0], {})[site[1]] = site[2] if len(site) > 2 else delay        # (function, offset[, its own delay])
+    stats = {'delays': 0}
+
+    def tracer(frame, event, arg):
+        code = frame.f_code
+        offs = want.get(code.co_name)
+        if offs and code.co_filename.endswith('replicat/repository.py'):
+            frame.f_trace_opcodes = True
+
+            def local(frame, event, arg):
+                if event == 'opcode' and frame.f_lasti in offs:
+                    stats['delays'] += 1
+                    time.sleep(offs[frame.f_lasti])
+                return local
+            return local
+        return None
+    old = threading.gettrace() if hasattr(threading, 'gettrace') else None
+    threading.settrace(tracer)
+    try:
+        yield stats
+    finally:
+        threading.settrace(old)
